@@ -164,6 +164,75 @@ def gen_items(rng, sig, wild=False):
     return items
 
 
+def gen_items_valid(rng, sig):
+    """A command line built to bind: every required parameter supplied exactly once (positionally or by an option
+    naming it exactly or by a unique prefix), some optional ones, repeated options (last wins), extras for *args/**kw."""
+    names = sig_names(sig)
+    args, kwonly = sig["args"], sig["kwonly"]
+    nreq = len(args) - sig["ndefaults"]
+    npos = rng.randint(0, len(args))
+    if sig["varargs"] and rng.random() < 0.4:
+        npos = len(args) + rng.randint(1, 3)
+    items = []
+    for _ in range(npos):
+        s = gen_string(rng, dash_ok=False)
+        while s.startswith("-") or s in HELP_TOKENS:
+            s = gen_string(rng, dash_ok=False)
+        items.append(["pos", s] if rng.random() < 0.93 else ["stdin"])
+    targets = []
+    for i, a in enumerate(args):
+        if i >= npos and (i < nreq or rng.random() < 0.5):
+            targets.append(a)
+    for a in kwonly:
+        if a not in sig["kwdefaults"] or rng.random() < 0.5:
+            targets.append(a)
+    if sig["varkw"] and rng.random() < 0.5:
+        targets.append(rng.choice(["zz", "other", "q9"]))
+    if targets and rng.random() < 0.35:
+        targets.append(rng.choice(targets))       # a repeated option
+    rng.shuffle(targets)
+    opts = []
+    for tname in targets:
+        typed = tname
+        if tname in names and rng.random() < 0.5:
+            # shortest-or-longer unique prefix
+            ks = [k for k in range(1, len(tname) + 1)
+                  if [n for n in names if n.startswith(tname[:k])] == [tname]]
+            if ks:
+                typed = tname[:rng.choice(ks)]
+        if "_" in typed and rng.random() < 0.5:
+            typed = typed.replace("_", "-")
+        form = rng.choice(FORMS)
+        if form.startswith("-k"):
+            typed2 = typed.lstrip("-")
+            if typed2 != typed:
+                form = "--" + form[1:]
+        v = gen_string(rng)
+        if form.endswith("=v"):
+            while v == "":
+                v = gen_string(rng)
+        else:
+            while v.startswith("--"):
+                v = gen_string(rng)
+        opts.append(["opt", form, typed, v])
+    # interleave options among the positionals
+    out = list(items)
+    for o in opts:
+        out.insert(rng.randint(0, len(out)), o)
+    if rng.random() < 0.2 and (sig["varargs"] or npos < len(args)):
+        room = 3 if sig["varargs"] else len(args) - npos
+        # literal tail only where it cannot collide with an option given above
+        taken = {t for t in targets}
+        free = 0
+        for a in args[npos:]:
+            if a in taken:
+                break
+            free += 1
+        k = rng.randint(0, min(room, free if not sig["varargs"] else (free if free < len(args) - npos else 3)))
+        out.append(["dd", [gen_string(rng) for _ in range(k)]])
+    return out
+
+
 def gen_soup(rng, sig):
     """Unstructured argv: any mixture of tokens."""
     names = sig_names(sig)
